@@ -178,7 +178,9 @@ fn rerun_inner(ctx: &Ctx, setting: &str, envs: &[(&str, &str)], cwd: Option<&std
     #[cfg(unix)]
     let _ = std::os::unix::fs::symlink(root().join("target"), sroot.join("target"));
     let mut c = Command::new(exe("release"));
-    c.args([&ctx.id, "--tier", ctx.tier.name(), "--inner"]).env("VERIF_ROOT", &sroot);
+    // the date dimension multiplies the quick bound (seven full thorough runs would not fit the budget)
+    let tier = if setting.starts_with("clock-") { "quick" } else { ctx.tier.name() };
+    c.args([&ctx.id, "--tier", tier, "--inner"]).env("VERIF_ROOT", &sroot);
     for (k, v) in envs {
         c.env(k, v);
     }
@@ -388,7 +390,7 @@ pub fn run(ctx: &Ctx) {
                     ));
                 }
             }
-            clock_note = format!("check re-run with the wall clock at: {}", labels.join("; "));
+            clock_note = format!("check (quick bound) re-run with the wall clock at: {}", labels.join("; "));
         }
     }
     let _ = std::fs::remove_dir_all(&dir);
